@@ -712,7 +712,10 @@ def cylindrical_surface(
         )
 
     transformed_array, array_mask = extract_transformed_data(
-        data, transformed=transformed, klass=CylindricalHistogram, dropna=dropna
+        data,
+        transformed=transformed,
+        klass=CylindricalSurfaceHistogram,
+        dropna=dropna,
     )
 
     if transformed_array is not None:
@@ -732,7 +735,7 @@ def cylindrical_surface(
         **kwargs,
     )
     frequencies, errors2, missed = histogram_nd.calculate_nd_frequencies(
-        data,
+        transformed_array,
         binnings=bin_schemas,
         weights=extract_weights(weights, array_mask=array_mask),
     )
